@@ -25,6 +25,7 @@ import (
 	"strconv"
 	"strings"
 	"sync"
+	"sync/atomic"
 	"time"
 )
 
@@ -279,6 +280,7 @@ type e2ePipe struct {
 
 type e2eWire struct {
 	mu      sync.Mutex
+	act     atomic.Int64 // number of writes seen (the watchdog measures inactivity, not total time)
 	c2s     *e2ePipe
 	s2c     *e2ePipe
 	binary  bool
@@ -320,6 +322,7 @@ func newE2EWire(seed int64, maxChunk int) *e2eWire {
 
 func (p *e2ePipe) Write(b []byte) (int, error) {
 	w := p.w
+	w.act.Add(1)
 	p.dmu.Lock()
 	defer p.dmu.Unlock()
 	w.mu.Lock()
